@@ -1,14 +1,45 @@
 import HapVerif.Model.C07
+import HapVerif.Model.C07Ids
 import HapVerif.Drv.Common
 import HapVerif.Drv.C18
 namespace HapVerif.C07
 open HapVerif.Drv
 
-/-- `hist <ops…>` / `world <ops…>`; impl output: `ok` or problems joined by `,`.
+/-- one endpoint of a `sid` case: `n` no TargetRef | `<k>:!` TargetRef of pod k, which cannot be read |
+`<k>:<uid>` TargetRef of pod k whose UID is the text after the first `:` -/
+def parseSidEp (s : String) : Option Ids.Ep :=
+  if s = "n" then some ⟨none, .err⟩ else
+  match s.splitOn ":" with
+  | k :: rest@(_ :: _) =>
+    let uid := ":".intercalate rest
+    match k.toNat? with
+    | some k =>
+      if uid = "" then none
+      else if uid = "!" then some ⟨some k, .err⟩
+      else some ⟨some k, .hash (Ids.fnv1a (Ids.uidBytes uid))⟩
+    | none => none
+  | _ => none
+
+/-- `sid <mode> <ep,ep,…>` (server ids of assign-backend-server-id; endpoints in the order of the backend);
+impl output: the PUID of every endpoint in that order, `,` separated.
+`hist <ops…>` / `world <ops…>`; impl output: `ok` or problems joined by `,`.
 `ids <link,link,…>`; impl output: the ids the real AddBackendPath handed out, `link=NN,…` -/
 def handle (args : List String) (impl : String) : Verdict :=
   match args with
   | "alloc" :: _ => HapVerif.C18.handle args impl   -- auth-proxy port allocator (model + Spec shared with C18)
+  | "sid" :: _mode :: [eps] =>
+    match parseList parseSidEp eps with
+    | some es =>
+      let txt := ",".intercalate ((Ids.ids es).map toString)
+      let triv := (es.filter (·.ref.isSome)).length < 2
+      match parseList parseInt? impl with
+      | some out =>
+        { model := txt, agree := txt = impl ∧ es ≠ [],
+          oracle := if out.length = es.length then Ids.oracle out else some "server-id-missing-endpoint",
+          trivial := triv }
+      | none => { model := txt, agree := false,
+                  oracle := some (if impl = "PANIC" then "panic-sid" else "sid-output-" ++ impl), trivial := triv }
+    | none => bad "parse"
   | "ids" :: [links] =>
     match parseList (fun s => some s) links with
     | some ls =>
